@@ -1,2 +1,58 @@
+# C03 end to end: messages through the real SmtpConnection / AsyncSmtpConnection over loop-back;
+# the octets the scripted peer received in its DATA phase are judged by the extracted RFC 5321
+# receiver (spec.server_data) and compared with the model's `wire`.
+from common import *
+from smtp import *
+import c03
+
+
 def run(ctx):
-    pass
+    n = 150 if ctx.tier == "quick" else 4000
+    msgs = [b"", b".", b"\r", b"\n", b"\r\n", b".\r\n", b"\r\n.\r\n", b"\r\n.\r\nQUIT\r\n", b"a\r\n.\r\nMAIL FROM:<x@y>\r\n",
+            b"..", b"a\n.\n", b"a\r.\r", b"\r\r\n.", b"x" * 70000 + b"\r\n." * 3000]
+    msgs += c03.gen_random(ctx, n, 3000)
+    msgs += [bytes(t) for t in list(c03.gen_exhaustive(4))[::2]][:n]
+    scs = []
+    for i, m in enumerate(msgs):
+        for fl in ("sync", "tokio"):
+            scs.append({"id": len(scs), "flavor": fl, "timeout_ms": 3000, "servers": [happy_script(1)],
+                        "ops": [{"op": "connect", "hello": hx(b"c03.test")},
+                                {"op": "send", "from": hx(b"a@x.org"), "to": [hx(b"b@y.org")], "msg": hx(m)},
+                                {"op": "quit"}]})
+    res = run_scenarios(scs)
+    wires = run_model(["codec.wire\t" + hx(m) for m in msgs])
+    bad_corr, bad_oracle = [], []
+    spec_lines, spec_idx = [], []
+    for k, (sc, r) in enumerate(zip(scs, res)):
+        m = msgs[k // 2]
+        ctx.count()
+        ctx.nontrivial(b"wire" + m)
+        srv = (r.get("servers") or [None])[0]
+        if not srv or r.get("results") == "PANIC" or "error" in r:
+            bad_corr.append((k, "no server log / panic: %s" % str(r)[:200]))
+            continue
+        Rs = events_R(srv)
+        # expected: EHLO, MAIL, RCPT, DATA, <data unit>, QUIT
+        data_unit = Rs[4] if len(Rs) > 4 else b""
+        if hx(data_unit) != wires[k // 2] or len(Rs) != 6 or Rs[5] != b"QUIT\r\n":
+            bad_corr.append((k, "DATA-phase octets differ from model wire"))
+        spec_lines.append("spec.server_data\t" + hx(b"".join(Rs[4:])))
+        spec_idx.append(k)
+        if k < 4:
+            ctx.sample({"flavor": sc["flavor"], "message_hex": hx(m)[:80], "data_phase_octets": hx(data_unit)[:120]})
+    sres = run_model(spec_lines)
+    for k, r in zip(spec_idx, sres):
+        m = msgs[k // 2]
+        want = "some\t%s\t%s" % (hx(m + b"\r\n"), hx(b"QUIT\r\n"))
+        if r != want:
+            bad_oracle.append((k, r, want))
+    ctx.cov["correspondence"]["smtp_wire"] = {"dialogues": len(scs), "flavors": ["sync", "tokio"], "disagreements": len(bad_corr)}
+    ctx.cov["oracle"]["server_data_on_tcp_octets"] = {"cases": len(spec_lines), "failures": len(bad_oracle)}
+    if bad_oracle:
+        k, got, want = min(bad_oracle, key=lambda t: len(msgs[t[0] // 2]))
+        ctx.violation({"kind": "oracle-wire", "flavor": scs[k]["flavor"], "message_hex": hx(msgs[k // 2]),
+                       "receiver_got": got, "receiver_expected": want, "scenario": scs[k]})
+    elif bad_corr:
+        k, why = bad_corr[0]
+        ctx.violation({"kind": "correspondence-wire", "what": why, "flavor": scs[k]["flavor"], "message_hex": hx(msgs[k // 2]),
+                       "result": res[k]}, nofail=True)
